@@ -20,6 +20,7 @@ import gc
 import itertools
 import json
 import math
+import os
 import pickle
 import weakref
 from collections import OrderedDict
@@ -33,7 +34,7 @@ from .. import futil  # noqa: F401  (imports funsor from /repo)
 import funsor
 import funsor.ops as ops
 from funsor.domains import Array, ArrayType, Bint, Product, ProductDomain, Real, Reals
-from funsor.interpretations import eager, lazy, reflect
+from funsor.interpretations import eager, lazy, normalize, reflect
 from funsor.interpreter import reinterpret
 from funsor.ops.op import OpMeta
 from funsor.tensor import Tensor
@@ -170,6 +171,53 @@ def _source_forms():
     return forms
 
 
+MEMO_PAT = __import__("re").compile(r"cache|memo", __import__("re").I)
+CONTAINER_CALLS = ("dict", "OrderedDict", "defaultdict", "WeakValueDictionary", "WeakKeyDictionary", "WeakSet",
+                   "lru_cache", "cache", "Counter")
+
+
+def memo_scan():
+    """Every memoising decorator and every cache-like table in funsor/*.py (numpy tree):
+    [(kind, module, qualified name, source)] — a function decorated with something matching /cache|memo/
+    (functools.lru_cache, functools.cache, cached_property, home-made memoizers), or an assignment of a fresh
+    container (dict literal / dict()-like call) to a name matching /cache|memo/."""
+    out = []
+    root = REPO / "funsor"
+    for f in sorted(root.rglob("*.py")):
+        rel = f.relative_to(REPO)
+        if rel.parts[1] in ("torch", "jax", "pyro"):
+            continue
+        mod = ".".join(rel.with_suffix("").parts)
+        try:
+            tree = ast.parse(f.read_text())
+        except SyntaxError:
+            out.append(("unparsable", mod, "", ""))
+            continue
+
+        def visit(node, prefix):
+            for n in ast.iter_child_nodes(node):
+                if isinstance(n, (ast.FunctionDef, ast.AsyncFunctionDef, ast.ClassDef)):
+                    q = prefix + n.name
+                    for d in n.decorator_list:
+                        src = " ".join(ast.unparse(d).split())
+                        if MEMO_PAT.search(src):
+                            out.append(("decorator", mod, q, src))
+                    visit(n, q + ".")
+                    continue
+                if isinstance(n, (ast.Assign, ast.AnnAssign)) and n.value is not None:
+                    v = n.value
+                    fresh = isinstance(v, ast.Dict) or (
+                        isinstance(v, ast.Call) and ast.unparse(v.func).rpartition(".")[2] in CONTAINER_CALLS)
+                    if fresh:
+                        for t in (n.targets if isinstance(n, ast.Assign) else [n.target]):
+                            name = ast.unparse(t)
+                            if MEMO_PAT.search(name) and not isinstance(t, ast.Subscript):
+                                out.append(("table", mod, prefix + name, " ".join(ast.unparse(v).split())))
+                visit(n, prefix)
+        visit(tree, "")
+    return sorted(set(out))
+
+
 def _lean_str(s):
     return '"' + s.replace("\\", "\\\\").replace('"', '\\"').replace("\n", "\\n") + '"'
 
@@ -223,6 +271,12 @@ def render_table(rows, forms):
     out.append("")
     for k in sorted(forms):
         out.append(f"def {k} : String := {_lean_str(forms[k])}")
+    out.append("")
+    out.append("/-- memoising decorators and cache-like tables found in the source (kind, module, name, source) -/")
+    out.append("def memos : List (String × String × String × String) := [")
+    out.append(",\n".join(f"  ({_lean_str(a)}, {_lean_str(b)}, {_lean_str(c)}, {_lean_str(d)})"
+                          for a, b, c, d in memo_scan()))
+    out.append("]")
     out.append("")
     out.append("end FV.Gen.C07")
     return "\n".join(out) + "\n"
@@ -353,7 +407,7 @@ def enc_key_elem(v, ids, out):
 # recipes
 # ----------------------------------------------------------------------------------------------
 
-INTERPS = {"reflect": reflect, "lazy": lazy, "eager": eager}
+INTERPS = {"reflect": reflect, "lazy": lazy, "eager": eager, "normalize": normalize}
 
 
 class Recipe:
@@ -555,6 +609,10 @@ RECIPES = [
     Recipe("t0d2", "funsor.tensor.Tensor", "(A[0], (), 2)", needs=("A0",), interps=("reflect", "lazy"),
            pk=("reflect",)),
     Recipe("zb", T + "Variable", "('zb', Bint[3])", blob=True, pk=("reflect",)),
+    # variables over fresh dynamic domains, to be passed through every typing path (`use` steps) and dropped
+    Recipe("pr7", T + "Variable", "('p', H['r7'])", needs=("r7",)),
+    Recipe("qr7", T + "Variable", "('q', H['r7'])", needs=("r7",)),
+    Recipe("i7", T + "Variable", "('i7', H['bs7'])", needs=("bs7",)),
     # Tensor leaves on VIEWS of one buffer (non-contiguous, negative stride, 0-d, read-only): the key is the
     # identity of the array object passed, so the same view twice is one Tensor, equal-content views are not
     Recipe("tv_VT", TT, "(A[3],)", needs=("VT",), core=True, pk=("reflect", "eager"), ri=("reflect", "lazy")),
@@ -616,6 +674,32 @@ def _kw_recipes():
 KW_RECIPES = _kw_recipes()
 RECIPES = RECIPES + KW_RECIPES
 RBY = {r.name: r for r in RECIPES}
+
+# `use` steps: build a term over held handles under an interpretation, throw it away, run the collector.  Nothing
+# new may stay alive (model: a `gc` step).  Each expression keeps to the operands' own domains or pinned ones, so
+# that a table entry left behind is a leak and not an untracked by-product.
+USE_INTERPS = ("reflect", "lazy", "normalize", "eager")
+USES = {
+    "add": (("pr7", "qr7"), "H['pr7'] + H['qr7']"),
+    "mul": (("pr7", "qr7"), "H['pr7'] * H['qr7']"),
+    "max": (("pr7", "qr7"), "ops.max(H['pr7'], H['qr7'])"),
+    "logaddexp": (("pr7", "qr7"), "ops.logaddexp(H['pr7'], H['qr7'])"),
+    "addself": (("pr7",), "H['pr7'] + H['pr7']"),
+    "sub": (("pr7", "qr7"), "H['pr7'] - H['qr7']"),
+    "lt": (("pr7", "qr7"), "H['pr7'] < H['qr7']"),
+    "exp": (("pr7",), "H['pr7'].exp()"),
+    "neg": (("pr7",), "-H['pr7']"),
+    "sum": (("pr7",), "H['pr7'].sum()"),
+    "getitem": (("pr7", "i7"), "H['pr7'][H['i7']]"),
+    "reduce": (("pr7", "i7"), "H['pr7'][H['i7']].reduce(ops.add, 'i7')"),
+    "reduce_max": (("pr7", "i7"), "H['pr7'][H['i7']].reduce(ops.max, 'i7')"),
+    "subs": (("pr7", "qr7"), "(H['pr7'] + H['qr7'])(p=H['qr7'])"),
+    "contraction": (("pr7", "qr7"), "Contraction(ops.null, ops.mul, frozenset(), H['pr7'], H['qr7'])"),
+    "tensor_add": (("r7",), "Tensor(np.ones(7)) + Tensor(np.ones(7))"),
+    "tensor_var": (("pr7",), "Tensor(np.ones(7)) * H['pr7']"),
+    "stack": (("pr7", "qr7"), "Stack('k', (H['pr7'], H['qr7']))"),
+    "min": (("pr7", "qr7"), "ops.min(H['pr7'], H['qr7'])"),
+}
 ARR_SLOTS = {"A0": 0, "A1": 1, "B": 2, "VT": 3, "VM": 4, "VC": 5, "VS": 6, "VR": 7, "VZ": 8, "VO": 9}
 # array group k -> the slots (re-)allocated together: 0, 1 = the two plain buffers; 2 = a third buffer B with
 # its VIEWS (distinct ndarray objects sharing B's memory): transpose, moveaxis (same content as the transpose,
@@ -701,6 +785,9 @@ class World:
         self.funsor_classes = [c for c in _all_funsor_classes()]
         self.env = {"A": self.A, "H": self.H, "ops": ops, "Bint": Bint, "Real": Real, "Reals": Reals,
                     "Array": Array, "Product": Product, "OrderedDict": OrderedDict, "NAN": NAN}
+        from funsor.cnf import Contraction
+        self.env["Contraction"] = Contraction
+        self.env["np"] = np
         for c in (Variable, Number, Tensor, Unary, Binary, Subs, Align, Stack, Tuple, Reduce, Lambda, Slice):
             self.env[c.__name__] = c
 
@@ -722,6 +809,11 @@ class World:
                 fields = self.cls_fields[r.cls]
                 return c(*args[:npos], **{f: args[fields.index(f)] for f in order})
             return c(*args)
+
+    def use(self, uname, interp):
+        """build and throw away (own frame: nothing of the term survives the return)"""
+        with INTERPS[interp]:
+            eval(USES[uname][1], self.env)
 
     def table_snapshot(self):
         """{table name: sorted [(key tokens, value address)]} for every observed table."""
@@ -843,6 +935,8 @@ def enabled(step, held):
         return step[1] in held
     if kind == "loads":
         return ("B:" + step[1]) in held
+    if kind == "use":
+        return all(n in held for n in USES[step[1]][0])
     if kind == "dropP":
         return "P" in held
     return True
@@ -883,6 +977,7 @@ def alphabet(recipes, full=False):
     al += [("arr", 0), ("arr", 1), ("gc",), ("dropP",)]
     if full:
         al.append(("arr", 2))
+        al += [("use", u, None) for u in USES]
     return al
 
 
@@ -911,7 +1006,7 @@ def random_history(rng, length, recipes):
     held = frozenset(ARR_SLOTS)
     hist = []
     weights = {"mk": 6, "drop": 2, "pk": 2, "ri": 1, "arr": 1, "gc": 1, "dropP": 1, "cp": 1, "dc": 1,
-               "dumps": 2, "loads": 4}
+               "dumps": 2, "loads": 4, "use": 3}
     for _ in range(length):
         en = [s for s in al if enabled(s, held)]
         # favour composite constructions (their arguments are held right now), so deep terms get built
@@ -958,6 +1053,29 @@ def callform_histories(rng):
     return out
 
 
+def passed_through_histories(rng):
+    """Fresh dynamic domains / variables are created, passed through one typing path under one interpretation,
+    then everything is dropped and the collector runs: the weak table entries must be gone (the model compares
+    the domain table after every step).  One history per (use, interpretation); a second round re-creates and
+    re-drops the domain, sometimes with an unrelated construction in between."""
+    out = []
+    for u, (needs, _) in USES.items():
+        chain = []
+        for n in needs:
+            _needs_chain(n, chain)
+        for interp in USE_INTERPS:
+            h = [("mk", n, None) for n in chain] + [("use", u, interp)]
+            if rng.random() < 0.5:
+                h.append(("use", u, rng.choice(USE_INTERPS)))
+            drops = [("drop", n) for n in reversed(chain)]
+            if rng.random() < 0.3:
+                rng.shuffle(drops)
+            h += drops + [("gc",)]
+            h += [("mk", chain[0], None), ("drop", chain[0]), ("gc",)]
+            out.append(h)
+    return out
+
+
 def fill_interps(hist, rng):
     out = []
     for st in hist:
@@ -971,6 +1089,8 @@ def fill_interps(hist, rng):
             out.append(("dc", st[1], st[2] or rng.choice(RBY[st[1]].pk)))
         elif st[0] == "cp":
             out.append(("cp", st[1], st[2] or "reflect"))
+        elif st[0] == "use":
+            out.append(("use", st[1], st[2] or rng.choice(USE_INTERPS)))
         elif st[0] == "loads":
             out.append(("loads", st[1], st[2] or rng.choice(RBY[st[1]].pk or ("reflect",))))
         else:
@@ -1025,6 +1145,7 @@ class Run:
         self.tracked_arr = []      # [(obs index at creation, slot, weakref)]  arrays
         self.nobs = 0
         self.error = None
+        self.cyclic_ok = False     # set by a `use` step, see step()
         self.stale = None          # (history index, description): a constructor handed back a stale object
 
     # the pinned prelude + the two arrays
@@ -1127,6 +1248,11 @@ class Run:
         elif kind == "gc":
             full_collect()
             self.req.append(["gc"])
+        elif kind == "use":
+            w.use(sym[1], sym[2])
+            full_collect()
+            self.req.append(["gc"])
+            self.cyclic_ok = True
         elif kind == "dumps":
             r = RBY[sym[1]]
             toks = []
@@ -1178,6 +1304,12 @@ class Run:
             del src, new, newarrs, objmap, arrmap
         else:
             raise ValueError(sym)
+        if self.cyclic_ok and kind not in ("gc", "use"):
+            # after a `use` step held terms may have become cyclic garbage-to-be (Variable.input_vars is a
+            # lazily cached frozenset containing the variable itself), so dropping them frees them only at the
+            # next collection: from here on every step is followed by a collection on both sides
+            full_collect()
+            self.req.append(["gc"])
         self.observe(sym)
 
     def reset(self):
@@ -1464,6 +1596,9 @@ def run_py_oracle(w, hist, rng):
                 w.A.update(new_group(sym[1], rng))
             elif kind == "gc":
                 full_collect()
+            elif kind == "use":
+                w.use(sym[1], sym[2])
+                full_collect()
             elif kind == "dumps":
                 w.B[sym[1]] = pickle.dumps(w.H[sym[1]])
             elif kind == "loads":
@@ -1498,8 +1633,10 @@ def run_py_oracle(w, hist, rng):
                 if a in w.H and b in w.H and w.H[a] is w.H[b]:
                     return f"step {n}: {a} and {b} are built from different arguments but are the same object"
         # weak holding: drop everything, collect, nothing of ours may survive
-        refs = [weakref.ref(h) for h in w.H.values()] + dropped
-        if w.P is not None:
+        # (recipes such as `g0` / `sum_dflt` hand back pinned module-level objects: those are meant to live)
+        refs = [weakref.ref(h) for h in w.H.values() if id(h) not in w.pinned_raw] + \
+            [d for d in dropped if d() is None or id(d()) not in w.pinned_raw]
+        if w.P is not None and id(w.P) not in w.pinned_raw:
             refs.append(weakref.ref(w.P))
         w.H.clear()
         w.P = None
@@ -1532,7 +1669,8 @@ def python_snippet(hist, note):
              "from collections import OrderedDict",
              "import funsor, funsor.ops as ops",
              "from funsor.domains import Array, Bint, Product, Real, Reals",
-             "from funsor.interpretations import eager, lazy, reflect",
+             "from funsor.interpretations import eager, lazy, normalize, reflect",
+             "from funsor.cnf import Contraction",
              "from funsor.interpreter import reinterpret",
              "from funsor.tensor import Tensor",
              "from funsor.terms import Align, Binary, Lambda, Number, Reduce, Slice, Stack, Subs, Tuple, Unary, Variable",
@@ -1559,6 +1697,10 @@ def python_snippet(hist, note):
             lines.append(f"for s in GROUPS[{sym[1]}]: del A[s]")
             lines.append(f"A.update(group({sym[1]}))")
         elif kind == "gc":
+            lines.append("while gc.collect(): pass")
+        elif kind == "use":
+            lines.append(f"with {sym[2]}: _ = {USES[sym[1]][1]}")
+            lines.append("del _")
             lines.append("while gc.collect(): pass")
         elif kind == "pk":
             lines.append(f"with {sym[2]}: P = pickle.loads(pickle.dumps(H[{sym[1]!r}]))")
@@ -1747,7 +1889,7 @@ def run_batch(ctx, w, hists, label):
                      python=python_snippet(hist[:k], note) +
                      f"print({note!r})\nFAILS = True  # re-run with ./check C07 --replay for the model comparison\n")
             continue
-        nontrivial = len({s[1] for s in hist if s[0] == "mk"}) >= 2 or any(s[0] in ("pk", "ri", "arr", "cp", "dc", "loads") for s in hist)
+        nontrivial = len({s[1] for s in hist if s[0] == "mk"}) >= 2 or any(s[0] in ("pk", "ri", "arr", "cp", "dc", "loads", "use") for s in hist)
         ctx.case(sample={"stream": label, "history": sym_json(hist)},
                  nontrivial_key=("h", tuple(hist)) if nontrivial else None)
     recycling_stats(ctx, w, runs)
@@ -1829,6 +1971,8 @@ def _correspond(ctx):
         for _ in range(2 if ctx.tier == "quick" else 20):
             cf += [fill_interps(h, ctx.rng) for h in callform_histories(ctx.rng)]
         all_runs += run_batch(ctx, w, cf, "call-forms")
+        pt = [fill_interps(h, ctx.rng) for h in passed_through_histories(ctx.rng)]
+        all_runs += run_batch(ctx, w, pt, "passed-through")
         nrand = 300 if ctx.tier == "quick" else 6000
         maxlen = 36 if ctx.tier == "quick" else 60
         rh = [fill_interps(random_history(ctx.rng, ctx.rng.randint(6, maxlen), RECIPES), ctx.rng)
@@ -1869,9 +2013,11 @@ def search(ctx, broken):
         w = World(rows)
         warm_up_and_pin(w, ctx.rng)
         core = [r for r in RECIPES if r.core]
-        hs = [fill_interps(h, ctx.rng) for _ in range(3) for h in callform_histories(ctx.rng)]
+        hs = [fill_interps(h, ctx.rng) for h in passed_through_histories(ctx.rng)]
+        hs += [fill_interps(h, ctx.rng) for _ in range(3) for h in callform_histories(ctx.rng)]
         hs += [fill_interps(h, ctx.rng) for h in enumerate_histories(3, core)]
-        hs += [fill_interps(random_history(ctx.rng, ctx.rng.randint(4, 30), RECIPES), ctx.rng) for _ in range(4000)]
+        hs += [fill_interps(random_history(ctx.rng, ctx.rng.randint(4, 30), RECIPES), ctx.rng)
+               for _ in range(int(os.environ.get("C07_SEARCH_N", "4000")))]
         raised = None
         for n, hist in enumerate(hs + [None]):
             if hist is None:
